@@ -23,7 +23,7 @@ RULE = ('one evaluation = one simulated run over a seeded pair of connection con
         'dimension)')
 COMPONENTS = {'real': ['message.py (Transform identity, Proposal.intersection / is_subset)', 'ikesa.py (_select_best_sa_proposal, DH group checks, '
                        'response validation, handle_invalid_ke)', 'configuration.py'],
-              'stub': ['reference selection function (checks/c11.py ref_select)', 'wiretap (reads offers / choices / notifies from the wire)',
+              'stub': ['active reference responder sim/refpeer.py in place of the second daemon (batch refpeer)', 'reference selection function (checks/c11.py ref_select)', 'wiretap (reads offers / choices / notifies from the wire)',
                        'independent configuration reader']}
 ASSUMPTIONS = ['multi-proposal offers, foreign responses and never-offered suggested groups need an active peer: exercised by the Byzantine '
                'interposer batch (meta.byz), everything else passively', 'for CHILD_SAs the responder entry is identified by the negotiated '
